@@ -1128,6 +1128,92 @@ func (cpu *CPU) irq() {
  * ====================================================================
  */
 
+// Decimal-mode arithmetic works digit by digit: each digit is corrected and carries
+// into the next one. The helpers return the sum with the decimal carry in the bit
+// above the operand width, and the sum as it stood before the highest digit was
+// corrected, from which the overflow flag is derived. For subtraction d is the
+// complemented operand.
+
+func bcdAdd8(a, d, c uint16) (sum, ovf uint16) {
+	sum = (a & 0x0F) + (d & 0x0F) + c
+	if sum > 0x09 {
+		sum += 0x06
+	}
+	if sum > 0x0F {
+		sum = (sum & 0x0F) + 0x10
+	}
+	sum += (a & 0xF0) + (d & 0xF0)
+	ovf = sum
+	if sum > 0x9F {
+		sum += 0x60
+	}
+	return sum, ovf
+}
+
+func bcdAdd16(a, d, c uint32) (sum, ovf uint32) {
+	sum = (a & 0x000F) + (d & 0x000F) + c
+	if sum > 0x0009 {
+		sum += 0x0006
+	}
+	if sum > 0x000F {
+		sum = (sum & 0x000F) + 0x0010
+	}
+	sum += (a & 0x00F0) + (d & 0x00F0)
+	if sum > 0x009F {
+		sum += 0x0060
+	}
+	if sum > 0x00FF {
+		sum = (sum & 0x00FF) + 0x0100
+	}
+	sum += (a & 0x0F00) + (d & 0x0F00)
+	if sum > 0x09FF {
+		sum += 0x0600
+	}
+	if sum > 0x0FFF {
+		sum = (sum & 0x0FFF) + 0x1000
+	}
+	sum += (a & 0xF000) + (d & 0xF000)
+	ovf = sum
+	if sum > 0x9FFF {
+		sum += 0x6000
+	}
+	return sum, ovf
+}
+
+func bcdSub8(a, d, c uint16) (sum, ovf uint16) {
+	sum = (a & 0x0F) + (d & 0x0F) + c
+	if sum <= 0x0F {
+		sum = (sum - 0x06) & 0x0F
+	}
+	sum += (a & 0xF0) + (d & 0xF0)
+	ovf = sum
+	if sum <= 0xFF {
+		sum = (sum - 0x60) & 0xFF
+	}
+	return sum, ovf
+}
+
+func bcdSub16(a, d, c uint32) (sum, ovf uint32) {
+	sum = (a & 0x000F) + (d & 0x000F) + c
+	if sum <= 0x000F {
+		sum = (sum - 0x0006) & 0x000F
+	}
+	sum += (a & 0x00F0) + (d & 0x00F0)
+	if sum <= 0x00FF {
+		sum = (sum - 0x0060) & 0x00FF
+	}
+	sum += (a & 0x0F00) + (d & 0x0F00)
+	if sum <= 0x0FFF {
+		sum = (sum - 0x0600) & 0x0FFF
+	}
+	sum += (a & 0xF000) + (d & 0xF000)
+	ovf = sum
+	if sum <= 0xFFFF {
+		sum = (sum - 0x6000) & 0xFFFF
+	}
+	return sum, ovf
+}
+
 // ADC - Add with Carry
 // I'm not sure what I'm doing ;)
 func op_adc(cpu *CPU) {
@@ -1136,14 +1222,10 @@ func op_adc(cpu *CPU) {
 		d := uint16(cpu.cmdRead())
 		c := uint16(cpu.C)
 		sum := a + d + c
+		ovf := sum
 
 		if cpu.D == 1 {
-			if (sum & 0x0F) > 0x09 {
-				sum = sum + 0x06
-			}
-			if (sum & 0xF0) > 0x90 {
-				sum = sum + 0x60
-			}
+			sum, ovf = bcdAdd8(a, d, c)
 		}
 
 		if sum > 0xFF {
@@ -1153,7 +1235,7 @@ func op_adc(cpu *CPU) {
 		}
 
 		// overflow = ~(a ^ arg) & (a ^ sum) & 0x80;
-		if (a^d)&0x80 == 0 && (a^sum)&0x80 != 0 {
+		if (a^d)&0x80 == 0 && (a^ovf)&0x80 != 0 {
 			cpu.V = 1
 		} else {
 			cpu.V = 0
@@ -1166,20 +1248,10 @@ func op_adc(cpu *CPU) {
 		d := uint32(cpu.cmdRead16())
 		c := uint32(cpu.C)
 		sum := a + d + c
+		ovf := sum
 
 		if cpu.D == 1 {
-			if (sum & 0x000F) > 0x0009 {
-				sum = sum + 0x0006
-			}
-			if (sum & 0x00F0) > 0x0090 {
-				sum = sum + 0x0060
-			}
-			if (sum & 0x0F00) > 0x0900 {
-				sum = sum + 0x0600
-			}
-			if (sum & 0xF000) > 0x9000 {
-				sum = sum + 0x6000
-			}
+			sum, ovf = bcdAdd16(a, d, c)
 		}
 
 		if sum > 0xFFFF {
@@ -1188,7 +1260,7 @@ func op_adc(cpu *CPU) {
 			cpu.C = 0
 		}
 
-		if (a^d)&0x8000 == 0 && (a^sum)&0x8000 != 0 {
+		if (a^d)&0x8000 == 0 && (a^ovf)&0x8000 != 0 {
 			cpu.V = 1
 		} else {
 			cpu.V = 0
@@ -1814,14 +1886,10 @@ func op_sbc(cpu *CPU) {
 		d := uint16(^cpu.cmdRead())
 		c := uint16(cpu.C)
 		sum := a + d + c
+		ovf := sum
 
 		if cpu.D == 1 {
-			if (sum & 0x0F) > 0x09 {
-				sum = sum + 0x06
-			}
-			if (sum & 0xF0) > 0x90 {
-				sum = sum + 0x60
-			}
+			sum, ovf = bcdSub8(a, d, c)
 		}
 
 		if sum > 0xFF {
@@ -1831,7 +1899,7 @@ func op_sbc(cpu *CPU) {
 		}
 
 		// overflow = ~(a ^ arg) & (a ^ sum) & 0x80;
-		if (a^d)&0x80 == 0 && (a^sum)&0x80 != 0 {
+		if (a^d)&0x80 == 0 && (a^ovf)&0x80 != 0 {
 			cpu.V = 1
 		} else {
 			cpu.V = 0
@@ -1844,20 +1912,10 @@ func op_sbc(cpu *CPU) {
 		d := uint32(^cpu.cmdRead16())
 		c := uint32(cpu.C)
 		sum := a + d + c
+		ovf := sum
 
 		if cpu.D == 1 {
-			if (sum & 0x000F) > 0x0009 {
-				sum = sum + 0x0006
-			}
-			if (sum & 0x00F0) > 0x0090 {
-				sum = sum + 0x0060
-			}
-			if (sum & 0x0F00) > 0x0900 {
-				sum = sum + 0x0600
-			}
-			if (sum & 0xF000) > 0x9000 {
-				sum = sum + 0x6000
-			}
+			sum, ovf = bcdSub16(a, d, c)
 		}
 
 		if sum > 0xFFFF {
@@ -1866,7 +1924,7 @@ func op_sbc(cpu *CPU) {
 			cpu.C = 0
 		}
 
-		if (a^d)&0x8000 == 0 && (a^sum)&0x8000 != 0 {
+		if (a^d)&0x8000 == 0 && (a^ovf)&0x8000 != 0 {
 			cpu.V = 1
 		} else {
 			cpu.V = 0
